@@ -95,7 +95,7 @@ def run_property(spec, tier, seed, extract=None):
 
     # 2. prove ----------------------------------------------------------------------------
     theorems = core.props_theorems(pid)
-    rc, out = core.lake_build([f"Bxh.Props.{pid}"] + spec.lean_extra)
+    rc, out = core.lake_build(core.props_modules(pid) + spec.lean_extra)
     discharged = 0
     axioms = {}
     if rc != 0:
